@@ -7,7 +7,6 @@ BY_DESIGN = {
     'C28-seed4': 'outside the statement: field of the Panic receipt',
     'C28-seed6': 'outside the statement: field of the Panic receipt',
     'C11-seed6': 'outside the statement: state after a failed push (upstream WARNING)',
-    'C20-seed8': 'honest miss: needs max_gas_per_predicate == the predicate\'s gas (dimension not varied)',
     'C29-seed6': 'C29 needs gas exhaustion at the stale return address; C31 catches it',
 }
 rows = []
